@@ -6,7 +6,7 @@ for s in $LIST; do
   [ -f seeded/$s/patch.diff ] || continue
   PID=$(python3 -c "import json;print(json.load(open('seeded/$s/meta.json'))['breaks_property'])")
   if ! python3 -c "import json,sys;sys.exit(0 if any(c['property_id']=='$PID' for c in json.load(open('MANIFEST.json'))['checks']) else 1)"; then echo "$s: property $PID not claimed yet, skipped"; continue; fi
-  git -C /repo apply seeded/$s/patch.diff || { echo "$s: patch does not apply"; continue; }
+  git -C /repo apply /verif/seeded/$s/patch.diff || { echo "$s: patch does not apply"; continue; }
   OUT=$(./check $PID quick 2>&1); RC=$?
   git -C /repo checkout -- .
   CLASS=$(echo "$OUT" | sed -n 's/^violation class: //p' | head -1)
